@@ -133,7 +133,9 @@ reset between them) and of fresh `lace check`s of the same texts — by C19 both
 def handleW19 (toks : List String) : String :=
   match toks with
   | so :: _n :: srcs =>
-    match parseHex so, srcs.mapM parseText with
+    -- a source is a byte string; `none` = not valid UTF-8 (`fs::read_to_string` fails: `check`
+    -- reports an error, the watcher prints it and exits)
+    match parseHex so, srcs.mapM (fun h => (parseBytes h).map fun _ => parseText h) with
     | some so, some srcs =>
       let verdict : Outcome → String
         | .ok _ => "ok"
@@ -141,9 +143,14 @@ def handleW19 (toks : List String) : String :=
         | .panic _ => "panic"
       -- `so` = flag placement (0 off, 1 after, 2 before the subcommand) + 4 × delivery mode
       let so := so % 4
-      let w := ",".intercalate ((runSeq (so != 0) true [] srcs).map verdict)
-      let f := ",".intercalate (srcs.map fun s => verdict (assemble (so != 0) [] s).1)
-      let line := "watch=" ++ w ++ " fresh=" ++ f
+      let readable := (srcs.takeWhile Option.isSome).filterMap id
+      let rest := srcs.drop readable.length
+      let w := (runSeq (so != 0) true [] readable).map verdict ++
+        (match rest with | [] => [] | _ :: later => "exited" :: later.map fun _ => "none")
+      let f := srcs.map fun s => match s with
+        | some t => verdict (assemble (so != 0) [] t).1
+        | none => "diag"
+      let line := "watch=" ++ ",".intercalate w ++ " fresh=" ++ ",".intercalate f
       "M " ++ line ++ " ;; S " ++ line
     | _, _ => "bad-request"
   | _ => "bad-request"
